@@ -108,14 +108,14 @@ CHECKS = {
          "and every pair of well-formed types, an 'assignable' answer of the modelled procedure implies that every value (points and "
          "lists of values, membership by recursion on the value) of the first type is a value of the second (Proofs/ListSound.v: "
          "Frisch's Phi' with shorter lists, positive meets and the escape through a later rest element; Proofs/SemWf.v: difference and "
-         "intersection preserve well-formedness); C05_basic_types_assignability_is_inclusion: on the basic fragment the decision is exact "
-         "in both directions (a 'not assignable' answer comes with a separating value); is_same_type answers true exactly when both "
-         "directions do. The list model is tied to bdd.rs by comparing its three decisions per pair with the engine's, using the engine's "
-         "own list atoms. Partial: completeness for lists ('not assignable' => a separating value), check_mapping_empty and the memoised "
-         "co-inductive cut (recursive types) are not modelled; there the property is decided on the implementation by comparing every "
+         "intersection preserve well-formedness); for types whose structural components are lists only the converse is proved too "
+         "(C05_list_only_types_not_assignable_has_a_separating_value, Proofs/ListComplete.v), so that there the decision is exactly "
+         "inclusion (C05_list_only_types_assignability_is_inclusion); C05_basic_types_assignability_is_inclusion: the same on the basic "
+         "fragment; is_same_type answers true exactly when both directions do. The list model is tied to bdd.rs by comparing its three decisions per pair with the engine's, using the engine's "
+         "own list atoms. Partial: check_mapping_empty and the memoised co-inductive cut (recursive types) are not modelled; there the property is decided on the implementation by comparing every "
          "decision, on generated pairs converted in both orders and queried in two orders, with a bounded enumeration of the exact values "
-         "of the left type. Five genuine defects were repaired in /repo (fix: a6cefb8, 16f31f9, 3a0fd83, 10e351d — found while "
-         "proving list_inhabited sound — and 09b6a21).",
+         "of the left type. Six genuine defects were repaired in /repo (fix: a6cefb8, 16f31f9, 3a0fd83, 10e351d and the third list fix — "
+         "both found while proving list_inhabited sound / complete — and 09b6a21).",
          "Bounded enumeration (depth 4, capped breadth, universe = literals of both types + one fresh string/number/key): a missing "
          "separating value is only reported when the enumeration was exhaustive; decisions involving intersections of object types or "
          "unions whose object members overlap as open patterns are listed findings (the exact/open reading of atoms is not a Boolean algebra)."),
